@@ -166,8 +166,16 @@ func (e *Engine) harnessAPI(name string, args []Value, fn *ssa.Function) (Value,
 		e.mapOrderNondet = true
 		e.mapOrderMode = -1
 		if e.tier != "thorough" {
-			e.mapOrderMode = e.choose(3)
-			e.nondets = append(e.nondets, &Nondet{Name: "maporder", Kind: "choose", W: e.mapOrderMode})
+			if e.mapOrderDrawn {
+				// a repeated call moves on to the next schedule (no further fork): the pairs (0,1) (1,2) (2,0) are covered
+				e.mapOrderMode = (e.mapOrderPrev + 1) % 3
+				e.mapOrderPrev = e.mapOrderMode
+			} else {
+				e.mapOrderMode = e.choose(3)
+				e.mapOrderPrev = e.mapOrderMode
+				e.mapOrderDrawn = true
+				e.nondets = append(e.nondets, &Nondet{Name: "maporder", Kind: "choose", W: e.mapOrderMode})
+			}
 		}
 		return nil, true
 	case "vMapOrderOff":
